@@ -32,6 +32,7 @@ type Gate struct {
 	Faults      bool  // fault choices enabled on acquire/release-path calls
 	Dead        *bool // when *Dead, every call vanishes (the process died)
 	RenewFaults bool  // fault choices on CasByVersion (renewal path)
+	HonourCtx   bool  // refuse a call whose context has ended, like a networked storage does (kvs/inmem ignores contexts)
 	Calls       *[]string
 	OnCall      func(g *Gate, op string)
 	// Injected lists the faults injected so far ("Cas:reply-lost", ...)
@@ -74,6 +75,10 @@ func (g *Gate) Create(ctx context.Context, r kvs.Record) (string, error) {
 	if lq {
 		g.log("Create lost")
 		return "", ErrInjected
+	}
+	if g.HonourCtx && ctx.Err() != nil {
+		g.log("Create refused: %v", ctx.Err())
+		return "", ctx.Err()
 	}
 	v, err := g.Inner.Create(ctx, r)
 	g.log("Create -> %v", err)
@@ -123,6 +128,13 @@ func (g *Gate) CasByVersion(ctx context.Context, r kvs.Record) (kvs.Record, erro
 		g.log("Cas lost")
 		return kvs.Record{}, ErrInjected
 	}
+	if g.HonourCtx && ctx.Err() != nil {
+		g.log("Cas refused: %v", ctx.Err())
+		if g.OnResult != nil {
+			g.OnResult(g, "Cas", ctx.Err())
+		}
+		return kvs.Record{}, ctx.Err()
+	}
 	res, err := g.Inner.CasByVersion(ctx, r)
 	g.log("Cas -> %v", err)
 	if g.OnResult != nil {
@@ -139,6 +151,10 @@ func (g *Gate) Delete(ctx context.Context, key string) error {
 	if lq {
 		g.log("Delete lost")
 		return ErrInjected
+	}
+	if g.HonourCtx && ctx.Err() != nil {
+		g.log("Delete refused: %v", ctx.Err())
+		return ctx.Err()
 	}
 	err := g.Inner.Delete(ctx, key)
 	g.log("Delete -> %v", err)
